@@ -250,3 +250,122 @@ Proof. exact @C01_fee_no_miss_ins_pc. Qed.
 
 Print Assumptions C01_executions_are_instruction_level.
 Print Assumptions C01_fee_no_miss_instruction_level.
+
+(* ------------------------------------------------------------------------------------------------------------
+   Extension (detector bodies regenerated: Lemmas/DetectorsGenLemmas.v about Gen/DetectorsGen.v, the translation of the detect methods of the nine detectors in tealer/detectors) *)
+From Coq Require Import String List NArith ZArith Bool Arith.
+From Tealer Require Import Tables LeafPrelude Leaves Syntax Parse Cfg StackAst Keys KeysGen StackGen Analysis Domains Detect Driver DetectorsGen SearchGen StackLemmas StackGenLemmas SolverLemmas SearchGenLemmas TotalSolver Runs Paths Eval Exec LeafLemmas SingleLemmas SearchLemmas PathCut Compose ExecLemmas NoMiss DetectorsGenLemmas.
+
+(* the nine regenerated checks_field closures are the predicates of the model table, name by name, on every context *)
+Theorem C01_detectors_gen_eq :
+      Forall2
+         (fun (g : string * (bctx -> option bool)) (m : string * (bctx -> bool)) =>
+          fst g = fst m /\ (forall c : bctx, snd g c = Some (snd m c))) detectors_genE detectors.
+Proof. exact @detectors_genE_eq. Qed.
+
+(* NAME strings *)
+Theorem C01_detector_names_gen_eq :
+      rekey_to_NAME
+       :: can_close_account_NAME
+          :: can_close_asset_NAME
+             :: missing_fee_check_NAME
+                :: is_updatable_NAME
+                   :: is_deletable_NAME
+                      :: unprotected_updatable_NAME
+                         :: unprotected_deletable_NAME :: group_size_check_NAME :: nil = 
+       map fst detectors.
+Proof. exact @detector_names_gen_eq. Qed.
+
+(* the closures never raise *)
+Theorem C01_checks_field_gen_total :
+      forall (n : string) (g : bctx -> py bool), In (n, g) detectors_genE -> forall c : bctx, g c <> None.
+Proof. exact @checks_field_genE_total. Qed.
+
+(* the model table is a permutation of the registration order of all_detectors.py *)
+Theorem C01_registration_is_permutation :
+      same_elements (map fst detectors) all_detectors_import_order_gen = true /\
+       same_elements (map fst detectors) all_detectors_dir_order_gen = true /\ NoDup (map fst detectors).
+Proof. exact @registration_is_permutation. Qed.
+
+(* each regenerated detect body calls the path driver with its own closure and report condition *)
+Theorem C01_detect_gen_paths_mode :
+      forall (Contract GOut : Type) (t : tealer_obj Contract GOut) (n : string)
+         (d : tealer_obj Contract GOut -> py (list (Output Contract GOut))),
+       In (n, d) detector_calls_gen ->
+       tealer_output_group t = false \/ n = "group-size-check" ->
+       exists checks : bctx -> py bool,
+         In (n, checks) detectors_genE /\ d t = paths_mode t n checks (report_of n).
+Proof. exact @detect_gen_paths_mode. Qed.
+
+(* on one function the regenerated detect body returns what run_detector of the model returns *)
+Theorem C01_detect_gen_single_function :
+      forall (f : func) (r : fn_result) (fuel : nat) (n : string)
+         (d : tealer_obj unit unit -> py (list (Output unit unit))) (m : bctx -> bool),
+       defined_okb f = true ->
+       (forall b : block, In b (fn_blocks f) -> NoDup (b_ins b)) ->
+       In (n, d) detector_calls_gen ->
+       In (n, m) detectors ->
+       d (single_function_tealer f r fuel) =
+       option_map (fun ps : list (list nat) => ExecutionPaths tt n ps :: nil)
+         (lift nil (run_detector f r fuel n m)).
+Proof. exact @detect_gen_single_function_defined. Qed.
+
+(* run_detector with the regenerated predicate *)
+Theorem C01_run_detector_generated_predicate :
+      forall (f : func) (r : fn_result) (fuel : nat) (n : string) (g m : bctx -> bool),
+       In (n, g) detectors_gen ->
+       In (n, m) detectors -> run_detector f r fuel n g = run_detector f r fuel n m.
+Proof. exact @run_detector_generated_predicate. Qed.
+
+(* no approvable dangerous transaction is missed, stated with the regenerated predicates *)
+Theorem C01_no_miss_generated :
+      forall (e : env) (sem : opsem) (f : func) (fuel fuel' : nat) (res : fn_result) 
+         (cfgs : list rconfig) (name : string) (g m : bctx -> bool) (ps : list (list nat)),
+       In (name, g) detectors_gen ->
+       In (name, m) detectors ->
+       name <> "group-size-check" ->
+       sem_ok e sem ->
+       env_ok e ->
+       fn_intcs f = e_intcs e ->
+       graph_ok f ->
+       int_leaves_ok f true ->
+       int_leaves_ok f false ->
+       run_all f fuel = Done res ->
+       Accepts e sem f cfgs ->
+       nonrecursive f cfgs ->
+       (forall (b : nat) (st : list nat), In (b, st) cfgs -> m (ctx_of res b KSelf) = false) ->
+       (forall (b : nat) (st : list nat), In (b, st) cfgs -> m (ctx_of res b (KAtIndex (e_own e))) = false) ->
+       run_detector f res fuel' name g = Done ps -> ps <> nil.
+Proof. exact @no_miss_generic_generated. Qed.
+
+(* end to end for the fee detector through its regenerated detect body *)
+Theorem C01_fee_no_miss_detect_gen :
+      forall (e : env) (sem : opsem) (f : func) (fuel fuel' : nat) (res : fn_result) 
+         (cfgs : list rconfig) (out : list (Output unit unit)) (fee : Z),
+       defined_okb f = true ->
+       sem_ok e sem ->
+       env_ok e ->
+       fn_intcs f = e_intcs e ->
+       graph_ok f ->
+       fee_leaves_ok f KSelf ->
+       fee_leaves_ok f (KAtIndex (e_own e)) ->
+       int_leaves_ok f true ->
+       int_leaves_ok f false ->
+       run_all f fuel = Done res ->
+       Accepts e sem f cfgs ->
+       nonrecursive f cfgs ->
+       e_field e (e_own e) "Fee" = VInt fee ->
+       (MAX_TRANSACTION_COSTz < fee <= MAX_UINT64z)%Z ->
+       missing_fee_check_detect_gen (single_function_tealer f res fuel') = Some out ->
+       exists ps : list (list nat), out = ExecutionPaths tt "missing-fee-check" ps :: nil /\ ps <> nil.
+Proof. exact @C01_fee_no_miss_detect_gen. Qed.
+
+Print Assumptions C01_detectors_gen_eq.
+Print Assumptions C01_detector_names_gen_eq.
+Print Assumptions C01_checks_field_gen_total.
+Print Assumptions C01_registration_is_permutation.
+Print Assumptions C01_detect_gen_paths_mode.
+Print Assumptions C01_detect_gen_single_function.
+Print Assumptions C01_run_detector_generated_predicate.
+Print Assumptions C01_no_miss_generated.
+Print Assumptions C01_fee_no_miss_detect_gen.
